@@ -121,6 +121,8 @@ def sweep_plan(i):
 def random_plan(seed, idx):
     r = rng(seed, ID, idx)
     b = B()
+    watching = {0: ["L0"], 1: ["L1"]}
+    nl = [1]
     for _ in range(r.randint(5, 40)):
         b.random_time(r)
         k = r.random()
@@ -162,6 +164,16 @@ def random_plan(seed, idx):
             b.call(r.choice(["stop_announce", "announce"]), [0])
         elif k < 0.93:
             b.call("conn_lost", r.choice([[], ["u"], ["m"]]))
+        elif k < 0.94:
+            # the last listener of a filter goes and a listener comes (back): what is stored keeps its deadlines, and a
+            # refresh received in between still counts
+            fi = r.randrange(2)
+            if watching[fi]:
+                b.call("unwatch", [fi, watching[fi].pop()])
+            else:
+                nl[0] += 1
+                watching[fi].append(f"L{nl[0]}")  # a listener object of its own, as in C05
+                b.call("watch", [fi, watching[fi][-1]])
         elif k < 0.955:
             b.call("reject", [0, r.random() < 0.6])
         elif k < 0.975:
